@@ -211,6 +211,7 @@ func (c *Ctx) checkDistRange() {
 	})
 	seen := map[ssa.Value]bool{}
 	nLeaves := 0
+	sawZero := false
 	cappedAt := func(v ssa.Value, from *ssa.BasicBlock) bool {
 		// `from` (the block the φ edge leaves) or one of its dominators ends with
 		// If v >= MAX and `from` lies on its false side
@@ -282,6 +283,9 @@ func (c *Ctx) checkDistRange() {
 							}
 						}
 					}
+					if okZero {
+						sawZero = true
+					}
 					L.Check(okZero, "distance-range", r.label, name, pos, "stored exactly when the two sequences have no unambiguous difference", "the constant 0 is stored on a path that is not the no-difference branch")
 					continue
 				}
@@ -297,6 +301,10 @@ func (c *Ctx) checkDistRange() {
 			L.Check(lf.capped, "distance-range", r.label, name, pos, "reaches dist.Set only on the false branch of `value >= PROT_DIST_MAX`", "a computed distance can be stored without passing the PROT_DIST_MAX cap")
 		}
 	}
+	// presence, not only shape: the no-difference branch must set the pair to 0 (the matrix it
+	// writes into is not a zero matrix)
+	L.Check(sawZero, "distance-range", r.label, "pairs without an unambiguous difference are set to 0", c.P.Pos(r.F.Pos()),
+		"the branch where check2SequencesDiff is false stores the constant 0", "no store of the constant 0 on the branch where check2SequencesDiff is false: such pairs keep whatever the start matrix holds")
 	L.Floor("distance-range", 2, "0, cap, -1 marker, optimiser result (floor = half of the instances on the pinned tree: a clean-up may merge instances, a rule that sees nothing must still fail)")
 	_ = nLeaves
 }
